@@ -346,3 +346,7 @@ case("C10", "del-mask-wrong-axes", "VIOLATION", [(V, "mask = torch.zeros_like(X[
 case("C18", "spacing-skips-abutting", "VIOLATION", [(AN, "\t\t\t\t\td = start1 - end0\n\t\t\t\t\tif d < 0 or d >= max_distance:", "\t\t\t\t\td = start1 - end0\n\t\t\t\t\tif d <= 0 or d >= max_distance:")], "R-ACCEPT")
 case("C18", "count-rejects-exact-shape", "VIOLATION", [(AN, "if n_examples > shape[0] or n_annotations > shape[1]:", "if n_examples >= shape[0] or n_annotations > shape[1]:")], "R-ACCEPT")
 case("C15", "ohe-skips-last-char", "VIOLATION", [(UT, "\tfor i in range(len(seq)):\n\t\tidx = mapping[seq[i]]", "\tfor i in range(len(seq) - 1):\n\t\tidx = mapping[seq[i]]")], "R-TABLE")
+case("C17", "selection-skips-top-bin", "VIOLATION", [(MT, "\tmatched_loci = {'chrom': [], 'start': [], 'end': []}\n\tfor i in range(n):", "\tmatched_loci = {'chrom': [], 'start': [], 'end': []}\n\tfor i in range(n - 1):")], "R-COVER")
+case("C17", "filter-not-applied-to-groups", "VIOLATION", [(MT, "gc_perc = {gc:numpy.nonzero(idxs & (gc_perc == gc))[0].tolist() for gc in unique_gc}", "gc_perc = {gc:numpy.nonzero(gc_perc == gc)[0].tolist() for gc in unique_gc}")], "SIGNAL")
+case("C16", "min-counts-le", "VIOLATION", [(IOF, "signal[target_idx].sum() < min_counts", "signal[target_idx].sum() <= min_counts")], "FILTER")
+case("C19", "csum-build-short", "VIOLATION", [(SQ, "\t\tfor j in range(1, l):\n\t\t\tX_csum[i, j] = X_csum[i, j-1] + X[i, j]", "\t\tfor j in range(1, l - 1):\n\t\t\tX_csum[i, j] = X_csum[i, j-1] + X[i, j]")], "CSUM")
